@@ -123,6 +123,11 @@ pub fn gen_scenario(rng: &mut Rng, idx: u64, mode: CheckMode) -> (Cell, [f64; 6]
     // at this posture, so that base-link and tool-base pairs are decided as sharply as the environment pairs
     if with_base && rng.bool(0.17) {
         let target = if with_tool && rng.bool(0.5) { J_TOOL } else { 1 + rng.usize(5) };
+        // (a third of these pairs is exempt: the designed contact must then NOT be reported)
+        if rng.bool(0.33) {
+            cell.safety.special.retain(|((a, b), _)| crate::cell::key(*a, *b) != crate::cell::key(target, J_BASE));
+            cell.safety.special.push((if rng.bool(0.5) { (target, J_BASE) } else { (J_BASE, target) }, NEVER_COLLIDES));
+        }
         let r = cell.safety.lookup(target, J_BASE);
         let d = if r <= NEVER_COLLIDES {
             rng.range(-0.02, 0.01)
